@@ -14,6 +14,12 @@
   atomic counters are separate micro-steps, and parks atomically with the unlock (the standard's
   `condition_variable::wait`).  Sequential consistency is assumed.
 
+  Processing calls share their pcs; `mode` tells them apart: 0 `process`, 1 `processOne`, 2/3
+  `processIf` (declines even / odd ids and carries on; the declined events are put back), 4/5
+  `processUntil` (stops at the first even / odd id; that event and everything behind it are put back).
+  Both put-backs are `queueList.splice(queueList.begin(), tempList)` under `queueListMutex`, followed
+  by `if(doCanNotifyQueueAvailable()) notify_one()` (`procPutBack`, `procPbReadNc`, `procPbNotify`).
+
   `freeList` (slot recycling) is not modelled here; it is covered sequentially (Q/Machine.lean).
   Events are ghost ids; `consumed` records every event that left the queue for good, with how.
 -/
@@ -29,6 +35,10 @@ inductive Call
   /-- `processIf` with a predicate that accepts an event iff `accept` holds for its id parity
       (`keepOdd = true`: events with odd id are declined and put back) -/
   | processIf (keepOdd : Bool)
+  /-- `processUntil` with a predicate that says STOP (returns true) at the first event whose id has
+      the given parity (`stopOdd = true`: stop at the first odd id); the events before it are
+      dispatched, that event and everything behind it are put back in front of the queue -/
+  | processUntil (stopOdd : Bool)
   | takeEvent
   | peekEvent
   | clearEvents
@@ -49,13 +59,14 @@ inductive PC
   | enqReadEc
   | enqReadNc
   | enqNotify
-  -- process / processOne / processIf
-  | procPre (mode : Nat)        -- unlocked pre-check; mode 0 all, 1 one, 2 if(keep even), 3 if(keep odd)
+  -- process / processOne / processIf / processUntil
+  | procPre (mode : Nat)        -- unlocked pre-check; mode 0 all, 1 one, 2 if(keep even), 3 if(keep odd),
+                                -- 4 until(stop at first even), 5 until(stop at first odd)
   | procInc (mode : Nat)
   | procTake (mode : Nat)
   | procLoop (mode : Nat) (todo kept : List Nat) (any : Bool)
   | procPutBack (kept : List Nat) (any : Bool)
-  /-- after the put-back of `processIf`: `if(doCanNotifyQueueAvailable()) notify_one()` -/
+  /-- after the put-back of `processIf` / `processUntil`: `if(doCanNotifyQueueAvailable()) notify_one()` -/
   | procPbReadNc (any : Bool)
   | procPbNotify (any : Bool)
   | procDec (res : Bool)
@@ -152,6 +163,10 @@ def notifyOne (s : State) (ch : Nat) : State :=
 def keepPred (mode : Nat) (e : Nat) : Bool :=
   if mode = 2 then e % 2 == 0 else if mode = 3 then e % 2 == 1 else false
 
+/-- the predicate of `processUntil` (modes 4, 5): `true` = stop here -/
+def stopPred (mode : Nat) (e : Nat) : Bool :=
+  if mode = 4 then e % 2 == 0 else if mode = 5 then e % 2 == 1 else false
+
 /-- one micro-step of thread `t`; `none` if `t` does not exist, has finished, or is blocked -/
 def step (s : State) (t : Tid) (ch : Nat) : Option State :=
   match getT s t with
@@ -165,6 +180,7 @@ def step (s : State) (t : Tid) (ch : Nat) : Option State :=
       | .process :: _ => some (goto s t th (.procPre 0))
       | .processOne :: _ => some (goto s t th (.procPre 1))
       | .processIf keepOdd :: _ => some (goto s t th (.procPre (if keepOdd then 3 else 2)))
+      | .processUntil stopOdd :: _ => some (goto s t th (.procPre (if stopOdd then 5 else 4)))
       | .takeEvent :: _ => some (goto s t th .takePre)
       | .peekEvent :: _ => some (goto s t th .peekPre)
       | .clearEvents :: _ => some (goto s t th .clearPre)
@@ -207,7 +223,10 @@ def step (s : State) (t : Tid) (ch : Nat) : Option State :=
         if kept.isEmpty then some (goto s t th (.procDec (if mode ≥ 2 then any else true)))
         else some (goto s t th (.procPutBack kept any))
       | e :: r =>
-        if keepPred mode e then some (goto s t th (.procLoop mode r (kept ++ [e]) any))
+        -- processUntil: the predicate says stop: `break`; this event and everything behind it stay in
+        -- tempList (`kept` is always [] in modes 4/5: `C06_processUntil_kept_nil`) and are put back
+        if stopPred mode e then some (goto s t th (.procPutBack (kept ++ e :: r) any))
+        else if keepPred mode e then some (goto s t th (.procLoop mode r (kept ++ [e]) any))
         else some (goto { s with consumed := s.consumed ++ [(e, .dispatched, t)] } t th (.procLoop mode r kept true)))
     | .procPutBack kept any =>
       if s.qm.isSome then none else
